@@ -245,14 +245,13 @@ func (vc *VC) zeroArray(r string, at *types.Array) {
 
 // subRef: reference of a struct-typed (or array-typed) field embedded in the object at r.
 func (vc *VC) subRef(st types.Type, field int, r string) string {
-	s, _ := structOf(st)
-	f := vc.declareFun("sub!"+shortType(st)+"."+s.Field(field).Name(), []string{"Int"}, "Int")
+	f := vc.declareFun("sub!"+shortType(st)+"."+recFieldName(st, field), []string{"Int"}, "Int")
 	return fmt.Sprintf("(%s %s)", f, r)
 }
 
 func (vc *VC) fvFun(st types.Type, field int) string {
 	s, _ := structOf(st)
-	return vc.declareFun("fv!"+shortType(st)+"."+s.Field(field).Name(), []string{"Int"}, sortOf(s.Field(field).Type()))
+	return vc.declareFun("fv!"+shortType(st)+"."+recFieldName(st, field), []string{"Int"}, sortOf(s.Field(field).Type()))
 }
 
 // ---- addresses, loads, stores --------------------------------------------------------
@@ -281,7 +280,7 @@ func (vc *VC) fieldAddr(ins *ssa.FieldAddr) {
 		vc.define(ins, vc.subRef(st, ins.Field, base))
 		return
 	}
-	f := vc.declareFun("fa!"+shortType(st)+"."+s.Field(ins.Field).Name(), []string{"Int"}, "Int")
+	f := vc.declareFun("fa!"+shortType(st)+"."+recFieldName(st, ins.Field), []string{"Int"}, "Int")
 	vc.define(ins, fmt.Sprintf("(%s %s)", f, base))
 	vc.addrs[ins] = &addr{kind: "field", key: vc.fieldKey(st, ins.Field), base: base, typ: ft}
 }
@@ -575,7 +574,7 @@ func (vc *VC) resolveObjMod(m string, env *specEnv) (key, obj string, ok bool) {
 		return "", "", false
 	}
 	for i := 0; i < s.NumFields(); i++ {
-		if s.Field(i).Name() == f.Name {
+		if recFieldName(st, i) == f.Name {
 			return vc.fieldKey(st, i), x.term, true
 		}
 	}
@@ -681,7 +680,7 @@ func (vc *VC) guardOf(v ssa.Value) (lock string, g *Guarded, ok bool) {
 	if !isStruct {
 		return "", nil, false
 	}
-	name := shortType(st) + "." + s.Field(fa.Field).Name()
+	name := shortType(st) + "." + recFieldName(st, fa.Field)
 	for _, gd := range vc.C.Guarded {
 		if gd.Field != name {
 			continue
@@ -697,7 +696,7 @@ func (vc *VC) guardOf(v ssa.Value) (lock string, g *Guarded, ok bool) {
 			continue
 		}
 		for i := 0; i < s.NumFields(); i++ {
-			if shortType(st)+"."+s.Field(i).Name() == gd.Mutex {
+			if shortType(st)+"."+recFieldName(st, i) == gd.Mutex {
 				return vc.subRef(st, i, vc.val(fa.X)), gd, true
 			}
 		}
